@@ -396,7 +396,8 @@ namespace opensmt {
       if (strcmp(name, o_random_seed) == 0) {
           if (value.getValue().type != O_NUM) { msg = s_err_not_num; return false; }
           int seed = value.getValue().numval;
-          if (seed == 0) { msg = s_err_seed_zero; return false; }
+          // The generator works on doubles in (0, 2^31-1): a non-positive seed makes it return negative indices
+          if (seed <= 0) { msg = s_err_seed_zero; return false; }
       }
 
       if (strcmp(name, o_sat_split_type) == 0) {
@@ -539,7 +540,7 @@ namespace opensmt {
   const char* SMTConfig::s_err_not_str = "expected string";
   const char* SMTConfig::s_err_not_bool = "expected Boolean";
   const char* SMTConfig::s_err_not_num = "expected number";
-  const char* SMTConfig::s_err_seed_zero = "seed cannot be 0";
+  const char* SMTConfig::s_err_seed_zero = "seed must be a positive number";
   const char* SMTConfig::s_err_unknown_split = "unknown split type";
   const char* SMTConfig::s_err_unknown_units = "unknown split units";
 
